@@ -244,7 +244,12 @@ class DistContract:
 
         dims = lead + ([u.dims[-2]] if diag else [u.dims[-2], v.dims[-2]])
         self.R = R
-        return VTensor(dims, elem, "real")
+        self.result = VTensor(dims, elem, "real")
+        return self.result
+
+    def value_at(self, i, j):
+        """the callee's result at (i, j) of the last call (no batch)"""
+        return self.result.elem([i, j])
 
 
 def lengthscale(c, bs, d, ard):
@@ -863,3 +868,133 @@ def replay_rbfgrad(model, params, clause, info):
     bad = K.shape != want.shape or err > 1e-9
     return {"violates": bool(bad), "detail": f"RBFKernelGrad(ard={ard}) in d={dval}: max |K - autograd reference| = {err:.3e}",
             "entry": {"module": "contracts.C05_kernels", "function": "replay_rbfgrad", "args": [model, list(params), clause, info]}}
+
+
+@case("C05", clause="matern52_grad", expand=lambda ix: [(d, ard) for d in (1, 2) for ard in (False, True) if not (ard and d == 1)], replay=lambda *a: replay_matern52grad(*a), timeout=900,
+      functions=[f"{KM}.matern52_kernel_grad.Matern52KernelGrad.forward"])
+def matern52_grad(c, dval, ard):
+    """Matern-5/2 k = (1 + s r + 5/3 r^2) e^(-s r), s = sqrt 5, r = |(x1 - x2) / l| (covar_dist's contract), with its first derivatives, interleaved layout, x1 != x2;
+    with u_a = (x1_i[a] - x2_j[a]) / l_a^2 and g = 5/3 (1 + s r) e^(-s r):
+        d/d x2_j[a] = u_a g,   d/d x1_i[a] = -u_a g,   d2/d x1_i[a] d x2_j[e] = -5/3 e^(-s r) (5 u_a u_e - [a == e] (1 + s r) / l_a^2)
+    (that these closed forms ARE the derivatives of k is the calculus lemma `matern52_closed_forms_are_derivatives`, checked by the CAS)"""
+    it, ctx = c.it, c.ctx
+    n1, n2 = c.size("n1"), c.size("n2")
+    c.assume(z3.And(n1.t >= 1, n2.t >= 1))
+    c.assume(n1.t != n2.t, "Matern52KernelGrad is verified for x1 != x2 with different numbers of points (the branch that symmetrises K for x1 == x2 is covered by the bounded tier)")
+    d = z3.IntVal(dval)
+    x1, x2 = sym_tensor("x1", [n1.t, d]), sym_tensor("x2", [n2.t, d])
+    ls, lsf0 = lengthscale(c, [], d, ard)
+    lsf = lsf0([])
+    o = kernel_obj(c, f"{KM}.matern52_kernel_grad.Matern52KernelGrad", [], {"lengthscale": ls}, ard_num_dims=(VNum(d) if ard else NONE), nu=VNum(2.5))
+    dc = DistContract(c, o)
+    c.it.optable["hook.torch.equal"] = lambda it_, ctx_, a, k: FALSE
+    res = run_forward(c, o, x1, x2, False)
+    okr = len(res.dims) == 2
+    c.prove("matern52_grad.shape", z3.And(res.dims[0].size == n1.t * (dval + 1), res.dims[1].size == n2.t * (dval + 1)) if okr else z3.BoolVal(False))
+    if not okr:
+        return
+    c.prove("matern52_grad.one_plain_distance_of_the_scaled_inputs", z3.BoolVal(len(dc.calls) == 1 and not dc.calls[0][2] and not dc.calls[0][3]))
+    if len(dc.calls) != 1:
+        return
+    i, j = ivar("i"), ivar("j")
+    c.assume(z3.And(i >= 0, i < n1.t, j >= 0, j < n2.t))
+    div = lambda a_, b_: dom_real.rdiv(ctx, a_, b_)  # noqa: E731
+    u = lambda a_: div(div(x1.at([i, z3.IntVal(a_)]) - x2.at([j, z3.IntVal(a_)]), lsf(z3.IntVal(a_))), lsf(z3.IntVal(a_)))  # noqa: E731
+    S = dval + 1
+    rd = lambda r_, c_: E.resolve_ites(ctx, res.at_dims([r_, c_]))  # noqa: E731
+    # r: the callee's value at (i, j), read back from the value block: k = (1 + s r + 5/3 r^2) e^(-s r) must hold for the SAME r that the derivative blocks use
+    u_, v_ = dc.calls[0][0], dc.calls[0][1]
+    rij = dc.value_at(i, j) if hasattr(dc, "value_at") else None
+    if rij is None:
+        c.fail("matern52_grad.distance_contract_exposes_value", "DistContract has no value_at")
+        return
+    s5 = dom_real.apply(ctx, "sqrt", z3.RealVal(5))
+    e_ = dom_real.apply(ctx, "exp", -(s5 * rij))
+    g = z3.RealVal("5/3") * (1 + s5 * rij) * e_
+    c.prove_identity("matern52_grad.value_block", rd(i * S, j * S), (1 + s5 * rij + z3.RealVal("5/3") * rij * rij) * e_, cas_first=True)
+    for a in range(dval):
+        c.prove_identity(f"matern52_grad.d_dx2[{a}]", rd(i * S, j * S + 1 + a), u(a) * g, cas_first=True)
+        c.prove_identity(f"matern52_grad.d_dx1[{a}]", rd(i * S + 1 + a, j * S), -u(a) * g, cas_first=True)
+        for e in range(dval):
+            delta = div(1 + s5 * rij, lsf(z3.IntVal(a)) * lsf(z3.IntVal(a))) if a == e else z3.RealVal(0)
+            c.prove_identity(f"matern52_grad.d2_dx1[{a}]_dx2[{e}]", rd(i * S + 1 + a, j * S + 1 + e), -z3.RealVal("5/3") * e_ * (5 * u(a) * u(e) - delta), cas_first=True)
+
+
+def replay_matern52grad(model, params, clause, info):
+    """real Matern52KernelGrad against autograd of the Matern-5/2 kernel (value, both gradients, mixed second derivatives), interleaved layout, x1 != x2"""
+    import math
+    import torch
+    import gpytorch
+    dval, ard = params
+    torch.manual_seed(6)
+    n1, n2 = 3, 2
+    k = gpytorch.kernels.Matern52KernelGrad(ard_num_dims=(dval if ard else None)).double()
+    ls = torch.linspace(0.6, 1.3, dval if ard else 1, dtype=torch.double).reshape(1, -1)
+    k.lengthscale = ls
+    x1 = torch.randn(n1, dval, dtype=torch.double)
+    x2 = torch.randn(n2, dval, dtype=torch.double)
+    with torch.no_grad():
+        K = k(x1, x2).to_dense()
+    S = dval + 1
+    want = torch.zeros(n1 * S, n2 * S, dtype=torch.double)
+    for i in range(n1):
+        for j in range(n2):
+            a = x1[i].clone().requires_grad_(True)
+            b = x2[j].clone().requires_grad_(True)
+            r = ((((a - b) / ls.reshape(-1)) ** 2).sum()).sqrt()
+            f = (1 + math.sqrt(5) * r + 5.0 / 3.0 * r ** 2) * torch.exp(-math.sqrt(5) * r)
+            ga, gb = torch.autograd.grad(f, (a, b), create_graph=True)
+            want[i * S, j * S] = f.detach()
+            want[i * S, j * S + 1:j * S + S] = gb.detach()
+            want[i * S + 1:i * S + S, j * S] = ga.detach()
+            for q in range(dval):
+                (h,) = torch.autograd.grad(ga[q], b, retain_graph=True)
+                want[i * S + 1 + q, j * S + 1:j * S + S] = h
+    err = (K - want).abs().max().item()
+    bad = K.shape != want.shape or err > 1e-8
+    return {"violates": bool(bad), "detail": f"Matern52KernelGrad(ard={ard}) in d={dval}: max |K - autograd reference| = {err:.3e}",
+            "entry": {"module": "contracts.C05_kernels", "function": "replay_matern52grad", "args": [model, list(params), clause, info]}}
+
+
+def _derivative_lemma(kind):
+    """sympy: the closed forms stated in rbf_grad / matern52_grad are the partial derivatives of the kernel (d = 2, ARD lengthscales l1, l2 > 0, x1 != x2)"""
+    import sympy as sp
+    a1, a2, b1, b2 = sp.symbols("a1 a2 b1 b2", real=True)
+    l1, l2 = sp.symbols("l1 l2", positive=True)
+    A, B, Ls = (a1, a2), (b1, b2), (l1, l2)
+    r2 = sum(((A[k] - B[k]) / Ls[k]) ** 2 for k in range(2))
+    u = [(A[k] - B[k]) / Ls[k] ** 2 for k in range(2)]
+    if kind == "rbf":
+        kf = sp.exp(-r2 / 2)
+        d_b = [u[k] * kf for k in range(2)]
+        d_a = [-u[k] * kf for k in range(2)]
+        h = [[((1 / Ls[p] ** 2 if p == q else 0) - u[p] * u[q]) * kf for q in range(2)] for p in range(2)]
+    else:
+        r = sp.sqrt(r2)
+        s5 = sp.sqrt(5)
+        e = sp.exp(-s5 * r)
+        kf = (1 + s5 * r + sp.Rational(5, 3) * r ** 2) * e
+        g = sp.Rational(5, 3) * (1 + s5 * r) * e
+        d_b = [u[k] * g for k in range(2)]
+        d_a = [-u[k] * g for k in range(2)]
+        h = [[-sp.Rational(5, 3) * e * (5 * u[p] * u[q] - ((1 + s5 * r) / Ls[p] ** 2 if p == q else 0)) for q in range(2)] for p in range(2)]
+    bad = []
+    for k in range(2):
+        if sp.simplify(sp.diff(kf, B[k]) - d_b[k]) != 0:
+            bad.append(f"d/dx2[{k}]")
+        if sp.simplify(sp.diff(kf, A[k]) - d_a[k]) != 0:
+            bad.append(f"d/dx1[{k}]")
+        for q in range(2):
+            if sp.simplify(sp.diff(kf, A[k], B[q]) - h[k][q]) != 0:
+                bad.append(f"d2/dx1[{k}]dx2[{q}]")
+    return bad
+
+
+@case("C05", clause="derivative_closed_forms", name="closed_forms_are_derivatives", expand=lambda ix: [("rbf",), ("matern52",)], replay=None, timeout=900,
+      functions=[f"{KM}.rbf_kernel_grad.RBFKernelGrad.forward", f"{KM}.matern52_kernel_grad.Matern52KernelGrad.forward"])
+def closed_forms_are_derivatives(c, kind):
+    """calculus lemma over the contracts rbf_grad / matern52_grad (sympy CAS, d = 2, ARD): the closed forms those contracts pin the code to are the first partial
+    derivatives and the mixed second derivatives of the kernel -- so the blocks of the derivative kernels are derivatives of the value block"""
+    c.ctx.assumptions.add("sympy's symbolic differentiation and simplification are trusted for the derivative lemma (d = 2; the autograd replays cross-check numerically)")
+    bad = _derivative_lemma(kind)
+    c.prove(f"lemma.{kind}.closed_forms_equal_symbolic_derivatives", z3.BoolVal(not bad), mismatches=bad)
